@@ -977,6 +977,48 @@ fn sec_reccut(s: &mut Sink, rng: &mut Rng, workloads: usize, mutations: usize, o
 }
 
 static DUPGEN_ONLY: std::sync::atomic::AtomicBool = std::sync::atomic::AtomicBool::new(false);
+static RECOVER_ORACLE: std::sync::Mutex<Vec<String>> = std::sync::Mutex::new(Vec::new());
+
+/// C12 on a recovered device: the version clock of every key's shard is at or above the timestamp
+/// the index holds for the key (so the next automatic version exceeds it), and an automatic write
+/// right after the open is not refused as older
+fn clock_floor_check(image: &str, amb: bool, ttl: bool, now: u64, dir: &str) {
+    let Ok(bytes) = std::fs::read(image) else { return };
+    let p = format!("{}/clockfloor.feox", dir);
+    if std::fs::write(&p, &bytes).is_err() { return; }
+    feoxdb::verif::clock::pin(now);
+    let r = catch_unwind(AssertUnwindSafe(|| {
+        FeoxStore::builder().device_path(p.clone()).hash_bits(6).enable_caching(false).enable_ttl(ttl)
+            .allow_ambiguous_legacy_recovery(amb).build()
+    }));
+    if let Ok(Ok(store)) = r {
+        let mut bad: Option<String> = None;
+        for rec in store.verif_snapshot() {
+            let shard = store.verif_clock_shard(&rec.key);
+            let clock = store.verif_clock_value(shard);
+            if clock < rec.timestamp && bad.is_none() {
+                bad = Some(format!("clockfloor: after recovering {} (now={}) key {} is indexed with timestamp {} but its clock shard stands at {}: the next automatic version would not exceed it", image, now, hex(&rec.key), rec.timestamp, clock));
+            }
+        }
+        if bad.is_none() {
+            for rec in store.verif_snapshot() {
+                if rec.timestamp >= u64::MAX - 1 { continue; }
+                if let Err(feoxdb::FeoxError::OlderTimestamp) = store.insert(&rec.key, b"after-recovery") {
+                    bad = Some(format!("clockfloor: after recovering {} (now={}) an automatic insert of key {} (indexed timestamp {}) is refused as older", image, now, hex(&rec.key), rec.timestamp));
+                    break;
+                }
+            }
+        }
+        if let Some(b) = bad {
+            let keep = format!("{}.clockfloor", image);
+            let _ = std::fs::write(&keep, &bytes);
+            RECOVER_ORACLE.lock().unwrap().push(b.replace(image, &keep));
+        }
+        drop(store);
+    }
+    feoxdb::verif::clock::unpin();
+    let _ = std::fs::remove_file(&p);
+}
 
 fn sec_recover(s: &mut Sink, rng: &mut Rng, workloads: usize, mutations: usize) {
     let base = 1_700_000_000_000_000_000u64;
@@ -1018,6 +1060,10 @@ fn sec_recover(s: &mut Sink, rng: &mut Rng, workloads: usize, mutations: usize) 
             let (op, line) = recover_line(s, &mp, amb, ttl_open, later);
             // the driver must see the image as it was *before* the real open modified it
             let op = op.replace(&mp, &keep);
+            if line.starts_with("ok") && kinds[0] == "dup-generation" {
+                clock_floor_check(&keep, amb, ttl_open, later, &s.dir.clone());
+                *s.hist.entry("clock-floor-checked".into()).or_insert(0) += 1;
+            }
             let kind = if line.starts_with("ok") { format!("recover-mut-ok-{}", kinds[0]) } else { format!("recover-mut-{}-{}", line.replace(' ', "-"), kinds[0]) };
             s.emit(&kind, op, line);
             let _ = std::fs::remove_file(&mp);
@@ -1378,6 +1424,7 @@ fn main() {
     }
     s.ops.flush().unwrap();
     s.imp.flush().unwrap();
+    oracle.extend(RECOVER_ORACLE.lock().unwrap().drain(..));
     std::fs::write(format!("{}/fmt.oracle", args.out), oracle.iter().map(|l| format!("{}\n", l)).collect::<String>()).unwrap();
     let hist: Vec<String> = s.hist.iter().map(|(k, v)| format!("\"{}\": {}", k, v)).collect();
     let meta = format!("{{\"engine\": \"fmt\", \"seed\": {}, \"lines\": {}, \"recsize\": {}, \"kinds\": {{{}}}}}\n", args.seed, s.lines, s.recsize, hist.join(", "));
